@@ -792,8 +792,8 @@ def stream_table_stub(ctx: Ctx) -> Stream:
 # search on stub tables: the same laws with oracles written independently of the code under test
 
 
-def stub_sym(s: Any) -> tuple[str, str, str, Forest]:
-	return (dsn_of(s.types), dsn_of(s.node), dsn_of(s.decl), obs_forest(s.attrs))
+def stub_sym(s: Any) -> tuple[str, str, str, str, Forest]:
+	return (dsn_of(s.types), dsn_of(s.node), dsn_of(s.decl), s.via.types.fullyname, obs_forest(s.attrs))
 
 
 def search_stub_laws(ctx: Ctx) -> SearchResult:
@@ -1349,7 +1349,7 @@ def describe(s: Any) -> dict[str, Any]:
 	"""the description the property compares: type (with nested type arguments), declaration, node"""
 	def d(x: Any) -> str:
 		return f"{x.types.fullyname}<{','.join(d(a) for a in x.attrs)}>" if x.attrs else x.types.fullyname
-	return {'type': d(s), 'types': dsn_of(s.types), 'str': str(s), 'decl': dsn_of(s.decl), 'node': dsn_of(s.node)}
+	return {'type': d(s), 'types': dsn_of(s.types), 'str': str(s), 'decl': dsn_of(s.decl), 'node': dsn_of(s.node), 'via': s.via.types.fullyname}
 
 
 def real_symbol_ops(db: Any, ser: Any, mod: str) -> tuple[list[str], list[str]]:
@@ -1508,6 +1508,7 @@ def invariants_of(db: Any, data: dict[str, dict[str, Any]], mod: str) -> dict[st
 		return True
 
 	sym_ok = True
+	via_inv = True
 	for k, s in items:
 		if k.split('#')[0] != mod:
 			continue
@@ -1518,6 +1519,18 @@ def invariants_of(db: Any, data: dict[str, dict[str, Any]], mod: str) -> dict[st
 			o = table.get(s.types.fullyname)
 			ok = o is not None and o.types == s.types and (bool(f) or not o.attrs)
 		sym_ok = sym_ok and ok and good(f)
+		# ViaOK (C14.rt_exact): a class entry is its own via; another entry's via key names an entry of that very type, or — when it is
+		# the type key — the entry of the type key is its own via
+		v = s.via.types.fullyname
+		if s.node.is_a(defs.ClassDef) and s.types == s.decl:
+			v_ok = v == s.types.fullyname
+		elif v != s.types.fullyname:
+			e = table.get(v)
+			v_ok = e is not None and e.types.fullyname == v
+		else:
+			e = table.get(v)
+			v_ok = e is None or e.via.types.fullyname == v
+		via_inv = via_inv and v_ok
 
 	# Loaded (C14.order): closed, class keys, acyclic class entries, via
 	def is_cls(x: Any) -> bool:
@@ -1559,7 +1572,7 @@ def invariants_of(db: Any, data: dict[str, dict[str, Any]], mod: str) -> dict[st
 			elif not state.get(nxt):
 				state[nxt] = 1
 				stack.append((nxt, iter(sorted(graph.get(nxt, ())))))
-	return {'SymOK': sym_ok, 'Loaded': closed and cls_keys and via_ok and acyclic}
+	return {'SymOK': sym_ok, 'Loaded': closed and cls_keys and via_ok and acyclic, 'ViaOK': via_inv}
 
 
 def real_table_ops(db: Any) -> list[str]:
@@ -1652,21 +1665,48 @@ def _check_module(ld: Loaded, mod: str, replay: dict[str, Any], out: list[Findin
 		found(f'order:{shape}-row-before-its-{kind}-key',
 			f'export of {mod} lists {k} ({shape} row) before {r}, which its {kind} refer to; import_json then raises SymbolNotDefined',
 			{'row': k, 'missing': r, 'order': list(data.keys())[:40]})
+	# the JSON form: what is imported is what a reader of the stored text gets (persistent.py:159-173 writes json.dumps(data, separators=(',', ':'))
+	# and imports json.loads of it), so the export has to survive the text unchanged — same rows, same row order, same path order
+	stage[0] = 'export-json'
+	try:
+		data_before = json.dumps(data, separators=(',', ':'))
+		exported = data
+		data = json.loads(data_before)
+	except (TypeError, ValueError) as e:
+		found(f'export:not-json:{exc_enum(e)}', f'the export of {mod} cannot be written as JSON: {exc_text(e, 200)}', {})
+		return
+	if data != exported or list(data) != list(exported) or any(list(data[k].get('attrs', {})) != list(exported[k].get('attrs', {})) for k in data):
+		k = next((k for k in data if k not in exported or data[k] != exported[k] or list(data[k].get('attrs', {})) != list(exported[k].get('attrs', {}))), '?')
+		found('export:not-json-stable', f'the export of {mod} does not survive json.dumps / json.loads: row {k} is read back as {str(data.get(k))[:200]}', {'key': k})
+	# the entries of the other modules the rows refer to (import_json reads exactly these): they must come through the import untouched
+	ref_keys = sorted({r for row in data.values() for r in [*([row.get('origin'), row.get('via')] if row.get('class') == 'Reflection' else []), *row.get('attrs', {}).values()]
+		if isinstance(r, str) and r.split('#')[0] != mod and r in db})
+	refs_before = {r: describe(db[r]) for r in ref_keys}
 	new = SymbolDB()
 	for k, s in db.items():
 		if k.split('#')[0] != mod:
 			new[k] = s
 	stage[0] = 'import'
-	data_before = json.dumps(data, sort_keys=False)
 	try:
 		new.import_json(ser, data)
 	except Exception as e:  # noqa: BLE001
 		if not bad_order:
 			found(f'import:raises:{exc_enum(e)}', f'import of the export of {mod} raises {exc_enum(e)}: {exc_text(e, 200)}', {})
 		return
-	if json.dumps(data, sort_keys=False) != data_before:
+	if json.dumps(data, separators=(',', ':')) != data_before:
 		found('import:mutates-input', f'import_json changed the rows it was given (export of {mod}): the caller cannot import them again', {})
 		data = json.loads(data_before)
+	stage[0] = 'frame'
+	if set(new.keys()) != set(db.keys()):
+		found('import:key-set', f'after the import of {mod} the table has keys {sorted(set(new.keys()) ^ set(db.keys()))[:5]} more/less than the exporting table', {})
+	moved = [k for k, s in db.items() if k.split('#')[0] != mod and (k not in new or new[k] is not s)]
+	if moved:
+		found('import:replaces-other-module', f'the import of {mod} replaced the entry {moved[0]} of another module', {'key': moved[0]})
+	for r, b in refs_before.items():
+		a = describe(db[r])
+		if a != b:
+			found('import:changes-other-module', f'the import of {mod} changed the entry {r} of another module (shared by both tables): before {b} after {a}', {'key': r, 'before': b, 'after': a})
+			break
 	if bad_order:
 		found('order:oracle-disagrees', 'import succeeded although a row refers to a later key', {'violations': bad_order[:3]})
 	stage[0] = 'describe-restored'
@@ -1682,6 +1722,12 @@ def _check_module(ld: Loaded, mod: str, replay: dict[str, Any], out: list[Findin
 	extra = [m for m in module_keys(new) if m != mod and new.completed(m)]
 	if extra:
 		found('completed:other-module', f'{extra[:3]} count as completed although only {mod} was imported', {})
+	# a second export of the restored module writes the same rows (type, node, decl, origin, via, paths); the row order may differ
+	stage[0] = 're-export'
+	again_rows = json.loads(json.dumps(new.to_json(ser, mod), separators=(',', ':')))
+	if again_rows != data:
+		k = next((k for k in data if again_rows.get(k) != data[k]), next(iter(set(again_rows) - set(data)), '?'))
+		found('re-export:row-differs', f'{k}: exported as {str(data.get(k))[:200]}, after the import exported as {str(again_rows.get(k))[:200]}', {'key': k, 'row': data.get(k), 'again': again_rows.get(k)})
 	stage[0] = 'import-again'
 	keys1 = list(new.keys())
 	for _ in range(2):
@@ -1697,7 +1743,7 @@ def real_pass(ctx: Ctx) -> tuple[list[Stream], SearchResult]:
 	"""one pass over fixed / corpus / generated programs and real modules: correspondence ops and the law search share the loaded tables"""
 	from rogw.tranp.semantics.reflection.db import SymbolDB
 	from rogw.tranp.semantics.reflection.serialization import IReflectionSerializer
-	res = SearchResult('export module → import into the table of the other modules → compare symbol by symbol, completed, import twice (real code only)')
+	res = SearchResult('export module → JSON text → import into the table of the other modules → compare symbol by symbol (type, decl, node, via), completed, other modules untouched, re-export writes the same rows, import twice (real code only)')
 	ser_cases: list[tuple[Any, list[str], list[str]]] = []
 	ord_cases: list[tuple[Any, list[str], list[str]]] = []
 	hist: Counter[str] = Counter()
@@ -1745,9 +1791,9 @@ def real_pass(ctx: Ctx) -> tuple[list[Stream], SearchResult]:
 					try:
 						inv = invariants_of(db, db.to_json(ser, m), m)
 						inv_ops.append(f't.inv\t{hx(m)}\t{class_ranks(db, m)}')
-						inv_real.append(f"Loaded={'true' if inv['Loaded'] else 'false'} SymOK={'true' if inv['SymOK'] else 'false'}")
+						inv_real.append(f"Loaded={'true' if inv['Loaded'] else 'false'} SymOK={'true' if inv['SymOK'] else 'false'} ViaOK={'true' if inv['ViaOK'] else 'false'}")
 						order_ok = not any(f.key.startswith('order:') for f in fnd)
-						inv_hist[f"SymOK={int(inv['SymOK'])},Loaded={int(inv['Loaded'])},order-law={'holds' if order_ok else 'fails'}"] += 1
+						inv_hist[f"SymOK={int(inv['SymOK'])},Loaded={int(inv['Loaded'])},ViaOK={int(inv['ViaOK'])},order-law={'holds' if order_ok else 'fails'}"] += 1
 						if inv['Loaded'] and not order_ok:
 							# C14.order says this cannot happen if model = code: report it as a broken tie (the law search reports the failing input)
 							inv_broken.append(f'{ld.name}:{m}')
@@ -1789,7 +1835,7 @@ def real_pass(ctx: Ctx) -> tuple[list[Stream], SearchResult]:
 	s3.histogram = {**s3.histogram, **dict(inv_hist)}
 	s3.disagreements += [{'case': n, 'real': 'order law fails', 'model': 'Loaded holds, so C14.order forbids it'} for n in inv_broken]
 	s3.note = 'the whole loaded table is sent to the driver and `Loaded` / `SymOK` are evaluated by their Lean definitions (compiled), compared with the harness evaluation; '
-	s3.note += 'hypotheses of C14.rt (SymOK) and C14.order (Loaded: closed, class keys, acyclic class entries, via) evaluated on each real table; a Loaded table whose export violates the order law would contradict the theorem (model ≠ code)'
+	s3.note += 'hypotheses of C14.rt (SymOK), C14.order (Loaded: closed, class keys, acyclic class entries, via) and C14.rt_exact (ViaOK) evaluated on each real table; a Loaded table whose export violates the order law would contradict the theorem (model ≠ code)'
 	res.note = ('programs tranp cannot type (load or attribute resolution raises) are outside the domain and counted under load:*:unsupported; '
 		'empty modules (no symbol) are not asked to be `completed`: import_json marks a module only when it imports one of its keys (db.py:176-180)')
 	s1 = common.correspond('serialize-real', ser_cases, FAMILY, classify=lambda d: f"{d['kind']}:depth={min(d['depth'], 6)}{'+' if d['depth'] >= 6 else ''}:width{'>=10' if d['width'] >= 10 else '<10'}")
@@ -1822,6 +1868,11 @@ STATEMENTS = {
 	'C14.state_is_modelled': 'GENERATED from the AST of db.py / serializer.py on every run: SymbolDB has exactly __paths, __items, __completed; __paths and __items are written by the same methods; only __setitem__, on_complete, unload, import_json write fields; _order_keys_recursive changes only its two out-parameters; the serializer writes no field and changes no argument in place (a memo / cache / consumed argument breaks the translator or this theorem)',
 	'C14.export_paths_canonical': 'every key of an exported attrs dict is a non-empty path whose dotted spelling consists of canonical decimals and decodes to the path',
 	'C14.canonical_roundtrip': 'on canonical decimals (ASCII digits, no sign, no leading zero) int and str are inverse',
+	'C14.import_frame': 'import_json changes no entry under a key it is not given a row for (entries of the other modules) and removes none',
+	'C14.rt_exact': 'under SymOK, the order law and ViaOK (a class entry is its own via; a via key names an entry of that very type): after export of M and import into the table of the other modules EVERY key has exactly the entry it had — types, node, decl, via, attribute forest — and each restored entry serializes to the row it was imported from (a second export writes the same rows)',
+	'C14.rt_loaded_exact': 'rt_exact with the order law supplied by C14.order from Loaded',
+	'C14.shipped_via': 'ViaOK holds for every module of the GENERATED library table — decided by the kernel',
+	'C14.shipped_rt_exact': 'for the shipped library modules, without hypotheses: the table after export and import is the table before, key by key and field by field (via included), and a second export writes the same rows',
 	'C14.shipped_invariants': 'for every module of the GENERATED library table (translate/gen_symbol_tables.py, re-generated from the real SymbolDB on every run): Loaded and SymOK hold — decided by the kernel',
 	'C14.shipped_rt': 'for those shipped library modules, without hypotheses: whatever to_json exports is imported without error, restores every entry, completes the module, and a second import changes nothing',
 	'C14.order_fuel': 'fuel sufficiency for EVERY table (also self-/mutually-referring class entries): any fuel ≥ number of keys + 1 gives the same walk — resolving is duplicate-free and inside the keys (pigeonhole)',
@@ -1861,8 +1912,8 @@ def run(ctx: Ctx) -> int:
 		translate_ok=translate_ok, translate_msg=translate_msg,
 		statements=STATEMENTS,
 		partial={
-			'proved': 'attribute flattening / rebuilding round trip for every forest; grouping fact; import idempotence; completed; table round trip under SymOK; the export-order law for every Loaded table (repaired algorithm)',
-			'correspondence_only': 'loaded tables other than the generated library sub-table satisfy SymOK and Loaded (evaluated on every real table by a harness paraphrase and, for a sample, by the Lean definitions themselves in the compiled driver: stream invariants-real); non-prefix-closed dicts against entries with attributes (walk into a shared entry) stay outside the model',
+			'proved': 'attribute flattening / rebuilding round trip for every forest; grouping fact; import idempotence; completed; table round trip under SymOK; the export-order law for every Loaded table (repaired algorithm); the exact round trip (every field incl. via, every key incl. the other modules, re-export writes the same rows) under SymOK + Loaded + ViaOK',
+			'correspondence_only': 'loaded tables other than the generated library sub-table satisfy SymOK, Loaded and ViaOK (evaluated on every real table by a harness paraphrase and, for a sample, by the Lean definitions themselves in the compiled driver: stream invariants-real); non-prefix-closed dicts against entries with attributes (walk into a shared entry) stay outside the model',
 		},
 		assumptions=[
 			"the importer is modelled on canonical decimal path components only (C14.export_paths_canonical: the exporter writes nothing else; C14.canonical_roundtrip: int / str are inverse there); other spellings int() accepts ('01', '+1', ' 1', '1_0') occur in hand-written JSON only and are never generated",
